@@ -640,6 +640,10 @@ pub fn run_e1(ctx: &Ctx, prop: P) -> i32 {
                 for (pi, pl) in plans.iter().enumerate() {
                     e2::check_c10_c11(label, case, pl, (94 + k, idx, pi as u32), acc);
                 }
+                if prop == P::C09 {
+                    // ... and over successive solves when the first one was cancelled at any poll
+                    e2::check_c09_cancel_reuse(case, (94 + k, idx, 90), acc);
+                }
             });
             total_states += acc.get("cases");
             total_transitions += acc.evaluations;
